@@ -8,7 +8,7 @@ import (
 func init() {
 	reg(&core.Property{
 		ID: "C14", Level: "exploration",
-		Batches: []core.Batch{{Name: "elections", Engine: chain.Engine{Prop: "C14"}, Quick: 1200, Thorough: 8000,
+		Batches: []core.Batch{{Name: "elections", Engine: chain.Engine{Prop: "C14"}, Quick: 1600, Thorough: 8000,
 			Rule: "a run is non-trivial when at least three heights were produced and at least two elections were checked, at least one of which changed the validator set or elected a runtime committee"}},
 		Real: append(append([]string{}, chainReal...), "scheduler application (elections in BeginBlock, validator updates in EndBlock) reading the real beacon, registry and staking state; roothash before-schedule hook"),
 		Stub: append(append([]string{}, chainStub...), "two read-only probe applications registered in every replica's mux right before and right after the scheduler (they observe ctx.State() in BeginBlock and write nothing)"),
